@@ -59,7 +59,7 @@ func c14Base(root string) fsmodel.Tree {
 // plant puts a symlink at path p (replacing whatever is there, with its subtree).
 func plant(t fsmodel.Tree, p, target string) fsmodel.Tree {
 	t = removeSub(t.Clone(), p)
-	t = append(t, fsmodel.Node{Path: p, Kind: fsmodel.Symlink, Perm: 0777, Mtime: fsmodel.T0 + 9, Link: target})
+	t = append(t, fsmodel.Node{Path: p, Kind: fsmodel.Symlink, Perm: 0777, Mtime: fsmodel.T0 + 9, Link: target, Xattrs: map[string]string{"trusted.planted": "1"}})
 	t.Sort()
 	if !t.Valid() {
 		return nil
@@ -216,7 +216,7 @@ func c14Cases(tier string) []c14Case {
 	merge.Sort()
 	srcV = append(srcV, merge)
 	srcArgs := []string{"/", "a", "a/f", "b", "*", "a/*", "l", "l/f", "c", "?", "a/..", "c/../a/..", "a/../../b", "l/a/f", "l/a", "l/a/*", "m?", "m?/sub", "*/sub", "..", "../.", "a/../..", "../b"}
-	dstArgs := []string{"/", "a", "a/f", "x", "new", "l", "l/sub", "x/", "l/"}
+	dstArgs := []string{"/", "a", "a/f", "x", "new", "l", "l/sub", "x/", "l/", "l/new/sub", "l/new/sub/"}
 	var pairs [][2]fsmodel.Tree
 	for _, s := range srcV {
 		pairs = append(pairs, [2]fsmodel.Tree{s, dstBase})
